@@ -1230,7 +1230,7 @@ fn main() {
         std::process::exit(if n == 0 { 0 } else { 1 });
     }
     let mut rep = vh::Report::new("C14", &cli, "model_checking");
-    let depth = cli.tier.pick(5usize, 6usize);
+    let depth = cli.tier.pick(5usize, 7usize);
     let profiles: Vec<SrtpProfile> = cli.tier.pick(
         vec![SrtpProfile::Aes128Sha1_80, SrtpProfile::AeadAes128Gcm],
         vec![SrtpProfile::Aes128Sha1_80, SrtpProfile::AeadAes128Gcm, SrtpProfile::Aes128Sha1_32],
